@@ -7,7 +7,11 @@
 
 package protocol
 
-import "github.com/contiv/libOpenflow/util"
+import (
+	"net"
+
+	"github.com/contiv/libOpenflow/util"
+)
 
 func lemmaFrame(e *Ethernet) (d *Ethernet, err error, b1, b2 []byte) {
 	b1, _ = e.MarshalBinary()
@@ -111,6 +115,53 @@ func lemmaEthPriorityTag(e *Ethernet, raw *util.Buffer) []byte {
 func lemmaEthTaggedBytes(b []byte) (err error, b2 []byte) {
 	d := new(Ethernet)
 	err = d.UnmarshalBinary(b)
+	if err != nil {
+		return
+	}
+	b2, _ = d.MarshalBinary()
+	return
+}
+
+// IGMPv3 (lists of sources / records): instances with fixed list lengths; every field value, address and the
+// auxiliary word stay symbolic. The list loops of encoder and decoder are unrolled (unwinding obligation proved).
+func lemmaIGMPv3Query2(q *IGMPv3Query, s1, s2 net.IP) (d *IGMPv3Query, err error, b1, b2 []byte) {
+	q.SourceAddresses = []net.IP{s1, s2}
+	q.NumberOfSources = 2
+	b1, _ = q.MarshalBinary()
+	d = new(IGMPv3Query)
+	err = d.UnmarshalBinary(b1)
+	if err != nil {
+		return
+	}
+	b2, _ = d.MarshalBinary()
+	return
+}
+
+func lemmaIGMPv3Record2(r *IGMPv3GroupRecord, s1, s2 net.IP, aux uint32) (d *IGMPv3GroupRecord, err error, b1, b2 []byte) {
+	r.SourceAddresses = []net.IP{s1, s2}
+	r.NumberOfSources = 2
+	r.AuxData = []uint32{aux}
+	r.AuxDataLen = 1
+	b1, _ = r.MarshalBinary()
+	d = new(IGMPv3GroupRecord)
+	err = d.UnmarshalBinary(b1)
+	if err != nil {
+		return
+	}
+	b2, _ = d.MarshalBinary()
+	return
+}
+
+// a report with two records: the first with one source, the second with two
+func lemmaIGMPv3Report2(p *IGMPv3MembershipReport, t1, t2 uint8, g1, g2, s1, s2, s3 net.IP) (d *IGMPv3MembershipReport, err error, b1, b2 []byte) {
+	p.GroupRecords = []IGMPv3GroupRecord{
+		{Type: t1, NumberOfSources: 1, MulticastAddress: g1, SourceAddresses: []net.IP{s1}},
+		{Type: t2, NumberOfSources: 2, MulticastAddress: g2, SourceAddresses: []net.IP{s2, s3}},
+	}
+	p.NumberOfGroups = 2
+	b1, _ = p.MarshalBinary()
+	d = new(IGMPv3MembershipReport)
+	err = d.UnmarshalBinary(b1)
 	if err != nil {
 		return
 	}
